@@ -117,6 +117,10 @@ Definition open_both (d : dst) (o : op) : dst * out :=
   else let '(v2, _) := ov_step v1 (Close (List.length (handles (d_ov d)))) in
        let '(h1, r') := host_call (d_host d) o in (mkD v2 h1, r').
 
+(* dirFS.Mknod: err != nil && !errors.Is(err, unix.EEXIST) *)
+Definition mknod_fallback (r : out) : bool :=
+  match r with OErr EExist => false | r => is_failure r end.
+
 Definition dirfs_step (d : dst) (o : op) : dst * out :=
   match o with
   | Mkdir _ _ | MkdirAll _ _ | Symlink _ _ => host_then_ov d o o
@@ -127,9 +131,10 @@ Definition dirfs_step (d : dst) (o : op) : dst * out :=
   | Chtimes _ _ => host_then_ov d o o
   | Chmod _ _ | Chown _ _ _ => host_ignored_then_ov d o
   | Mknod p perm dev =>
-      (* unix.Mknod; if that fails an empty regular file takes its place on the host *)
+      (* unix.Mknod; if that fails for another reason than EEXIST (fix bfd5027: a taken name is
+         left alone) an empty regular file takes its place on the host *)
       let '(h1, r) := host_call (d_host d) o in
-      if is_failure r then
+      if mknod_fallback r then
         let '(h2, r2) := host_call (d_host d) (WriteFile p [] 0%N) in
         if is_failure r2 then (mkD (d_ov d) h2, r2)
         else let '(v1, r') := ov_step (d_ov d) o in (mkD v1 h2, r')
